@@ -4330,8 +4330,8 @@ def replay_multi_definition_reference(a):
 
 SITES = {
     "C06": [structured_report, structured_parse_closure, junit_exit_code, junit_test_case, junit_report, validate_execute_step, test_generic_report, test_result_exit_code, test_exit_code_domain],
-    "C12": [structured_report, junit_test_case, data_input_wiring, data_input_params_wiring, structured_merge_closure, test_get_by_result, test_structured_evaluate, report_combine_union],
-    "C07": [flags_verdict_wiring, reporter_chain, library_entry_wiring, sarif_one_result_per_message, report_combine_union, structured_report, junit_test_case, validate_execute_step,
+    "C12": [structured_report, junit_test_case, junit_report, data_input_wiring, data_input_params_wiring, structured_merge_closure, test_get_by_result, test_structured_evaluate, report_combine_union],
+    "C07": [flags_verdict_wiring, reporter_chain, library_entry_wiring, sarif_one_result_per_message, report_combine_union, structured_report, junit_test_case, junit_report, validate_execute_step,
             data_input_params_wiring, structured_merge_closure],
     "C16": [test_generic_report, test_get_by_result, test_get_by_rules, test_structured_evaluate, test_result_exit_code, test_junit_counts, test_data_per_spec],
     "C02": [param_ctx_end_record, scope_delegations],
